@@ -1537,7 +1537,16 @@ macro_rules! public_decode_function{
                     // Wasn't read from `src`!, leave out_read to 0
                 }
                 DecoderResult::OutputFull => {
-                    panic!("Output buffer must have been too small.");
+                    // The withheld byte did not fit into `dst`. The
+                    // underlying decoder has not consumed it, so go back
+                    // to withholding it and let the caller provide more
+                    // output space.
+                    self.life_cycle = match first_byte {
+                        0xEFu8 => DecoderLifeCycle::SeenUtf8First,
+                        0xFEu8 => DecoderLifeCycle::SeenUtf16BeFirst,
+                        0xFFu8 => DecoderLifeCycle::SeenUtf16LeFirst,
+                        _ => DecoderLifeCycle::ConvertingWithPendingBB,
+                    };
                 }
             }
             return (first_result, out_read, first_written);
@@ -1577,7 +1586,15 @@ macro_rules! public_decode_function{
                     first_read = 0usize; // Wasn't read from `src`!
                 }
                 DecoderResult::OutputFull => {
-                    panic!("Output buffer must have been too small.");
+                    // `dst` did not have room for the output of both
+                    // withheld bytes. Remember what is still withheld and
+                    // let the caller provide more output space.
+                    self.life_cycle = if first_read == 1usize {
+                        DecoderLifeCycle::ConvertingWithPendingBB
+                    } else {
+                        DecoderLifeCycle::SeenUtf8Second
+                    };
+                    first_read = 0usize; // Wasn't read from `src`!
                 }
             }
             return (first_result, first_read, first_written);
